@@ -32,7 +32,15 @@ import (
 	"verif/internal/tape"
 )
 
-const repoDir = "/repo"
+// repoDir is the tree the checks rebuild from: /repo's working tree. (VERIF_REPO points background
+// sweeps at a snapshot of /repo's HEAD so that they are not disturbed by experiments in /repo; the
+// registered commands never set it.)
+var repoDir = func() string {
+	if d := os.Getenv("VERIF_REPO"); d != "" {
+		return d
+	}
+	return "/repo"
+}()
 
 var verifDir = func() string {
 	if d := os.Getenv("VERIF_DIR"); d != "" {
